@@ -44,7 +44,7 @@ def strategy_(draw):
     variant = draw(st.sampled_from(["standard", "standard", "alpha", "simple", "rescale", "reject-missing", "reject-outside"]))
     c = {
         "table": spec,
-        "container": draw(st.sampled_from(["dict", "dataframe", "dataframe-offset-index"])),
+        "container": draw(st.sampled_from(tables.CONTAINERS)),
         "variant": variant,
         "pair": draw(tables.pressure_pair()),
         "queries": [draw(st.one_of(st.floats(-0.5, 2.0), st.floats(-1e300, 1e300), st.sampled_from([0.0, 1.0, -1e-300, 1e-300]))) for _ in range(8)],
@@ -185,7 +185,7 @@ def check_case(case) -> Result:
         res.check("C09/rescale-maps-pf-to-0-pi-to-1", abs(at_i - 1.0), 1e-11 * scale, f"rescaled pseudopressure at p_i={p_i!r} is {at_i!r};")
         if not np.all(np.diff(newm) > 0):
             res.bad("C09/scaled-pseudopressure-increasing", "rescaled pseudopressure is not strictly increasing")
-        res.nontrivial = case["container"] == "dict" or not on_node
+        res.nontrivial = case["container"].startswith("dict") or not on_node
         return res
 
     # ---- constructions -----------------------------------------------------------------------------
